@@ -10,6 +10,7 @@ package c14
 
 import (
 	"fmt"
+	"os"
 	"sort"
 	"strings"
 
@@ -512,6 +513,18 @@ func (c *check) Init(tier string, seed int64) engine.Space {
 	}
 	c.fams = append(c.fams, famBorderImage(thorough)...)
 	c.fams = append(c.fams, tail...)
+	// development aid: VERIF_C14_FAMILIES=T,S restricts the run to the named families (reported in the bounds)
+	if only := os.Getenv("VERIF_C14_FAMILIES"); only != "" {
+		var keep []family
+		for _, f := range c.fams {
+			for _, n := range strings.Split(only, ",") {
+				if f.name == n {
+					keep = append(keep, f)
+				}
+			}
+		}
+		c.fams = keep
+	}
 	c.total = 0
 	c.starts = nil
 	sizes := map[string]any{}
@@ -535,7 +548,7 @@ func (c *check) Init(tier string, seed int64) engine.Space {
 		slots[s.name] = map[string]int{"choices": len(s.choices), "core": nc}
 	}
 	c.bounds = map[string]any{
-		"families": sizes, "lattice_slots": slots,
+		"families": sizes, "restricted_to_families(dev)": os.Getenv("VERIF_C14_FAMILIES"), "lattice_slots": slots,
 		"table_family":             map[string]any{"parts": tblParts, "own_group": tblOwn, "other_groups": tblOthers, "paints": len(tblPaints), "models": len(tblModels)},
 		"svg_clip_family":          map[string]any{"contents": len(svgClipContents), "targets": len(svgClipTargets), "refs": svgClipRefs, "units": svgClipUnits, "hosts": svgHosts},
 		"deviation_level":          map[string]any{"quick": "<=2 over the full menus", "thorough": "<=2 over the full menus, 3 over the core menus"}[tier],
